@@ -87,7 +87,8 @@ def num(x, nt):
 
 STATS = {"built": 0, "touched": 0, "fallback": 0, "siblings": 0, "via_negation": 0, "lifts_from_points_with_a_past": 0,
          "alias_moves": 0, "alias_reread_failed": 0, "lifts_with_caller_points_moved_afterwards": 0,
-         "lifts_through_Parallelepiped_builder": 0, "results_moved_by_the_caller": 0}      # shared with props.common.HIST_STATS
+         "lifts_through_Parallelepiped_builder": 0, "results_moved_by_the_caller": 0, "moved_in_two_steps": 0,
+         "built_with_int_coordinates": 0, "built_with_Fraction_coordinates": 0, "segments_placed_by_item_assignment": 0}      # shared with props.common.HIST_STATS
 
 
 def lift(d, rng=None, nt=float, form=None, past=None):
